@@ -61,7 +61,7 @@ previous disposition -/
 theorem pub_keeps {env : Env} {c v : SigData} {res : Ret} (hp : Pub env c v res) {sig : Int} {slot : Slot}
     (hs : lookup sig c.signals = some slot) :
     ∃ slot', lookup sig v.signals = some slot' ∧ slot'.prev = slot.prev := by
-  rcases hp with ⟨op, hp⟩ | ⟨chk, sg, tag, prev, hp, rfl⟩
+  rcases hp with ⟨op, hp⟩ | ⟨chk, sg, tag, prev, hp, _, _, rfl⟩
   · cases op with
     | register chk sg tag =>
       simp only [plan] at hp
